@@ -46,7 +46,7 @@ def run(ck):
 
     # ------------------------------------------------------------------ add
     ck.rule("A1 ClpMap::add: entries_.emplace_front()/index_.emplace() only with memLimit()==0 F, ttl<0 F, memory requirements computed, wantSpace > memLimit() F, "
-            "wantSpace == 0 F, after del(key) (no duplicate key) and after trim(wantSpace) (room was made); the new entry goes to the FRONT and is indexed at entries_.begin()")
+            "wantSpace == 0 F, after del(key) (no duplicate key) and after trim(wantSpace) (room was made); trim(wantSpace) itself only after del(key) (the value being replaced must not count when deciding what to evict); the new entry goes to the FRONT and is indexed at entries_.begin()")
     add = inst("add", "Ttl")
     need_locals(ck, add, "wantSpace", "ttl", "key", "memoryRequirements")
     ws = E.m_is_ref("wantSpace")
@@ -58,8 +58,17 @@ def run(ck):
              (E.M(lambda t: "memoryRequirements" in E.mentions(t), "memoryRequirements"), True, "an entry of uncomputable size would be stored", False),
              (E.m_cmp("<", E.m_calls(CM + "memLimit"), ws), False, "an entry larger than the capacity would be stored", False),
              (ws, True, "a size that overflowed to 0 would be stored", False)]
+    # `wantSpace = memoryRequirements.value_or(0)` folds "no requirements" into the wantSpace == 0 rejection: then the wantSpace gate covers both
+    ws_defs = ck.local_defs(add).get("wantSpace", [])
+    folded = len(ws_defs) == 1 and E.strip(ws_defs[0]).get("k") == "call" and E.strip(ws_defs[0]).get("f", "").endswith("::value_or") and \
+        "memoryRequirements" in E.mentions(ws_defs[0]) and E.const(E.strip(ws_defs[0])["a"][0]) == 0
     for m, v, why, hist in gates:
+        if folded and m.desc == "memoryRequirements":
+            ck.ok("A1.insert-gates", add.where(), "add: wantSpace = memoryRequirements.value_or(0): the wantSpace != 0 gate also rejects uncomputable sizes")
+            continue
         ck.require_fact("A1.insert-gates", fl, insert, m, v, "emplace_front|index emplace", min_sites=2, why="(%s)" % why, history=hist)
+    ck.require_passed("A1.old-value-released-before-trim", fl, ev_call(CM + "trim", arg={0: ws}), "deleted", "trim(wantSpace)",
+                      why="(trim() would make room while the value being replaced is still counted: live entries are evicted although the map has room once the old value is gone)")
     ck.require_passed("A1.insert-gates", fl, insert, "deleted", "emplace_front|index emplace", min_sites=2, why="(two entries could carry one key)")
     # add() replaces: whatever it answers, a previous entry under the same key is gone afterwards (the zero-capacity map, which holds nothing, excepted)
     for st in fl.find(ev_return()):
